@@ -206,6 +206,30 @@ class Monitor:
                     self.run.probe("generated_children_not_read_only")
 
 
+def bookkeeping_error(tree):
+    """C10: size / parent links / hash of a real tree against recomputation (None if consistent)."""
+
+    def rec(node, path):
+        n = 1
+        for i, c in enumerate(node.children):
+            if c.parent is not node:
+                return None, "%s: child %d has parent %r" % (path, i, None if c.parent is None else str(c.parent.symbol))
+            k, err = rec(c, path + "/%d" % i)
+            if err:
+                return None, err
+            n += k
+        if node.size() != n:
+            return None, "%s <%s>: size() reports %d nodes, recomputation gives %d" % (path, node.symbol, node.size(), n)
+        return n, None
+
+    _n, err = rec(tree, "")
+    if err:
+        return err
+    if hash(tree) != hash(copy.deepcopy(tree)):
+        return "hash(tree) differs from the hash of a fresh deep copy (stale hash cache)"
+    return None
+
+
 def _nt(name):
     from fandango.language.symbols import NonTerminal
 
@@ -251,6 +275,7 @@ def run(run: Run) -> None:
     stop_after = ch.pick([None, 1, 3, 10], "sched", "consumer-stops-after")
     run.op("spec: h=%d r=%d extra=%d generators=%s kinds=%s; settings pop=%d gens=%d nodes=%d mut=%.1f cx=%.1f elit=%.1f destr=%.1f stop_after=%s gen_fault_rate=%.2f" % (spec.h, spec.r, len(spec.extra_constraints), spec.gen_fields, [c["kind"] for c in spec.cons], pop, max_generations, settings["max_nodes"], settings["mutation_rate"], settings["crossover_rate"], settings["elitism_rate"], settings["destruction_rate"], stop_after, fault_rate))
     emitted = []
+    emitted_snap = []
     changed = {"crossover": 0, "mutation": 0, "repair": 0}
     gen = None
     try:
@@ -322,6 +347,10 @@ def run(run: Run) -> None:
             before = deriv.to_model(individual)
             out = orig_fix(individual, suggestion)
             after_in = deriv.to_model(individual)
+            for t_, what in ((individual, "input"), (out[0], "output")):
+                be = bookkeeping_error(t_)
+                if be:
+                    mon.once("C10", "bookkeeping", "stale-bookkeeping:repair-" + what + ":" + ("size" if "size()" in be else ("parent" if "parent" in be else "hash")), "after fix_individual the %s tree is inconsistent: %s" % (what, be))
             if after_in != before:
                 mon.once("C10", "operator-modified-input", "repair-modified-its-input", "fix_individual changed the tree it was given: %r -> %r" % (before, after_in))
             if deriv.to_model(out[0]) != before:
@@ -338,6 +367,12 @@ def run(run: Run) -> None:
             out = orig_cx(grammar, p1, p2)
             if deriv.to_model(p1) != b1 or deriv.to_model(p2) != b2:
                 mon.once("C10", "operator-modified-input", "crossover-modified-a-parent", "crossover changed one of its parents")
+            for t_, what in ((p1, "parent"), (p2, "parent")) + tuple((c_, "child") for c_ in (out or ())):
+                be = bookkeeping_error(t_)
+                if be:
+                    mon.once("C10", "bookkeeping", "stale-bookkeeping:crossover-" + what + ":" + ("size" if "size()" in be else ("parent" if "parent" in be else "hash")), "after crossover a %s tree is inconsistent: %s" % (what, be))
+            if out is not None and any(c_ is p1 or c_ is p2 for c_ in out):
+                mon.once("C10", "operator-returned-input", "crossover-returned-a-parent-object", "crossover returned one of its parent objects as offspring")
             if out is not None:
                 for c in out:
                     m = mon.check_derivation(c, "crossover-child")
@@ -356,6 +391,10 @@ def run(run: Run) -> None:
             out = yield from orig_mu(individual, grammar, evaluate_func, *a, **kw)
             if deriv.to_model(individual) != before:
                 mon.once("C10", "operator-modified-input", "mutation-modified-its-input", "mutate changed the tree it was given")
+            for t_, what in ((individual, "input"), (out, "output")):
+                be = bookkeeping_error(t_)
+                if be:
+                    mon.once("C10", "bookkeeping", "stale-bookkeeping:mutation-" + what + ":" + ("size" if "size()" in be else ("parent" if "parent" in be else "hash")), "after mutate the %s tree is inconsistent: %s" % (what, be))
             m = mon.check_derivation(out, "mutant")
             mon.check_generated_fields(out, m, "mutant")
             if m != before:
@@ -372,6 +411,7 @@ def run(run: Run) -> None:
                 run.probe("solution_emitted")
                 emitted.append(sol)
                 model = mon.check_derivation(sol, "emitted")
+                emitted_snap.append((sol, model))
                 mon.check_generated_fields(sol, model, "emitted")
                 # the serialisation is what the model fold gives
                 if str(sol) != "".join(str(x) for x in G.leaves(model)):
@@ -399,6 +439,13 @@ def run(run: Run) -> None:
             kind = ledger.fault_pending[0]
             if kind == "misfit":
                 mon.once("C16", "generator-misfit-swallowed", "misfit-did-not-raise", "generator %s returned %r which does not fit the rule, but no error reached the caller\nspec:\n%s" % (ledger.fault_pending[1], ledger.fault_pending[2], text))
+        # ---- C10: solutions handed out earlier are unchanged and still consistent ----------------
+        for sol, snap in emitted_snap:
+            if deriv.to_model(sol) != snap:
+                mon.once("C10", "emitted-solution-changed", "emitted-solution-modified-later", "a solution handed out earlier was modified by the continuing search: %r" % str(sol)[:120])
+            be = bookkeeping_error(sol)
+            if be:
+                mon.once("C10", "bookkeeping", "stale-bookkeeping:emitted", "an emitted solution is inconsistent: %s" % be)
         # ---- final population: still derivations, generated fields intact ----------------------
         for ind in list(strat.population):
             m = mon.check_derivation(ind, "population")
